@@ -23,7 +23,9 @@ ASSUMPTIONS = [
 BUILTIN = list(G.SKIP_BUILTIN)
 USER = ['mycode', 'code*', 'code2', 'equation', 'align*', 'itemize', 'tabular', 'Z', 'verbatimx']
 ATOMS = list(G.HOSTILE_ATOMS) + ['\\begin{NAME}', '\\end{NAMEx}', '\\end{NAM', '\\end {NAME}', '\\hid{1}', '\\end{NAME',
-                                   '\\end{ NAME}', '}', '{', '\\begin{verbatim}', '\\end{e}', '\\end{f}']
+                                   '\\end{ NAME}', '}', '{', '\\begin{verbatim}', '\\end{e}', '\\end{f}',
+                                   # a bare sizing prefix may stand directly before the closing \\end
+                                   '\\left', '\\big', '\\Bigg', '\\right']
 WRAPPERS = [
     ('', ''),
     ('pre \\x{a} ', ' post $m$ \\y'),
